@@ -119,6 +119,7 @@ func verifH_C16_slots() {
 
 //verif:harness id=C16 tier=quick,thorough witness=end bounds="operation-level references (parameter, request body, response, response header, schema in content, callback) to external files: the same file under two spellings (x.json and ./d/../x.json), two different files with equally named components (x.json and d/y.json 'Own'), a file that refers back into the root document, two versions of one file name (m.v1 / m.v2) and a directory-versus-underscore pair (a/b_c, a_b/c); after InternalizeRefs distinct targets have distinct component names, equal targets one name"
 func verifH_C16_operation_refs() {
+	verifMapOrder() // map iteration order is unspecified: ascending and descending key order
 	shape := verifChoose("shape", 5)
 	a, b := "x.json#/components/schemas/T", "./d/../x.json#/components/schemas/T" // same target, two spellings
 	switch shape {
@@ -295,6 +296,7 @@ func verifH_C16_external_structures() {
 
 //verif:harness id=C16 tier=quick,thorough witness=end bounds="external operation-level objects whose own file-local references must follow them: a response (header by local reference, content schema by local reference), a parameter and a request body referenced from e.json, each reaching e.json's own components, the root having different components under the same names; after InternalizeRefs + serialise + reload (no external reads) every probed schema dereferences to the same content as before"
 func verifH_C16_external_objects() {
+	verifMapOrder() // map iteration order is unspecified: ascending and descending key order
 	files := map[string]string{
 		"/r/e.json": `{"components":{` +
 			`"schemas":{"Leaf":{"type":"string","minLength":9}},` +
@@ -379,6 +381,7 @@ func verifH_C16_external_objects() {
 
 //verif:harness id=C16 tier=quick,thorough witness=end bounds="one external file whose components of different kinds share one name (Pet as schema, header, parameter, request body and response), referenced from one operation in every subset of {parameter, request body, response 200, response 404 with two headers that are the same external header, an earlier path using the external response}: after InternalizeRefs + serialise + reload (no external reads) every probed schema dereferences to the same content as before"
 func verifH_C16_same_name_kinds() {
+	verifMapOrder() // map iteration order is unspecified: ascending and descending key order
 	files := map[string]string{
 		"/r/e.json": `{"components":{` +
 			`"schemas":{"Pet":{"type":"string","minLength":9}},` +
